@@ -34,11 +34,12 @@ ENGINES = ["lean-model", "pyextract", "purediff"]
 LEVEL_TEXT = (
     "Lean theorems, no size/depth bounds. Response: allowed_iff, status_iff_denied, error_priority (minimal sort key, "
     "first among equals), prio_strict_order, warnings_order, patch_field_spec (patch/patchType present exactly when "
-    "there are operations, independent of the outcomes, i.e. also on denial). Selection: gate_spec, select_spec, "
-    "hinted_only_that_handler; the clause 'handlers match the operation' is FALSE of the code "
-    "(gate_ignores_operations_witness, open finding C18-F3) and proved as gate_spec_partial under the exact guard "
-    "'no declared operations, or the review carries the handler's webhook id and its sender honours that webhook's "
-    "rules' (rules[].operations tied to build_webhooks by the translator and the D-tie). Whole review: serve_allowed_iff "
+    "there are operations, independent of the outcomes, i.e. also on denial). Selection (code after cc4195a): gate_spec "
+    "is the FULL clause — type hint, webhook id, the request's operation among the handler's declared ones, DELETE "
+    "exclusion of mutating handlers unless opted in, subresource, filters; select_spec, hinted_only_that_handler, "
+    "gate_enforces_operations (every selected handler's declared operations admit the request's operation, the same "
+    "test as the rule sent to the apiserver, tied to build_webhooks), restricted_handler_skipped (the former C18-F3 "
+    "witness, generalised, is now rejected). Whole review: serve_allowed_iff "
     "(allowed iff no SELECTED handler raised), serve_warnings_order. Mutation, for ALL mapping bodies and ALL patches "
     "(code after 74dc18a): apply_total, fidelity (leaves of the mutated body = leaves of the RFC 7386 merge at every "
     "path, i.e. equality up to key order and empty mappings; dropEmpty_leafEq), fidelity_fns (with the transformation "
@@ -65,8 +66,8 @@ THEOREMS = [
     ("Kopf.Props.C18", "Kopf.C18.patch_field_spec"),
     ("Kopf.Props.C18", "Kopf.C18.gate_spec"),
     ("Kopf.Props.C18", "Kopf.C18.select_spec"),
-    ("Kopf.Props.C18", "Kopf.C18.gate_ignores_operations_witness"),
-    ("Kopf.Props.C18", "Kopf.C18.gate_spec_partial"),
+    ("Kopf.Props.C18", "Kopf.C18.gate_enforces_operations"),
+    ("Kopf.Props.C18", "Kopf.C18.restricted_handler_skipped"),
     ("Kopf.Props.C18", "Kopf.C18.hinted_only_that_handler"),
     ("Kopf.Props.C18", "Kopf.C18.apply_total"),
     ("Kopf.Props.C18", "Kopf.C18.fidelity"),
@@ -107,8 +108,8 @@ ASSUMPTIONS = [
     "code); the model accounts per handler for the warnings it appends and the exception it raises",
     "serve_admission_request's failures before any handler runs (MissingDataError, Unknown/AmbiguousResourceError) and "
     "the conditions under which block_deletion/allow_deletion raise are not property clauses: oracle/tie only",
-    "gate_spec_partial's routing hypothesis is Kubernetes' behaviour for the managed configuration (rules per webhook, "
-    "handler id in the webhook URL); with a manually written configuration it does not hold (C18-F3)",
+    "a review without an operation (malformed) matches every handler, as in the code; '*' among the declared operations "
+    "admits every operation",
     "JSON numbers are integers in generated cases (no floats)",
     "the other filters of match() (selector, labels, annotations, fields, when) are C15's subject: an opaque boolean here",
     "handler ids are unique inside one registry (outcomes is a dict keyed by id)",
@@ -134,6 +135,10 @@ GATE_VOCAB = {
     "cause.reason == handler.reason": "(c.reason == some h.reason)",
     "cause.webhook is None": "(c.webhook == none)",
     "cause.webhook == handler.id": "(c.webhook == some h.id)",
+    "handler.operations": "opsTruthy h",
+    "cause.operation is None": "(c.operation == none)",
+    "'*' in handler.operations": "opsContains h \"*\"",
+    "cause.operation in handler.operations": "opInOps h c",
     "handler.reason != causes.WebhookType.MUTATING": "(h.reason != WebhookType.mutating)",
     "cause.operation != 'DELETE'": "(c.operation != some \"DELETE\")",
     "set(handler.operations or []) == {'DELETE'}": "explicitlyForDeletion h",
@@ -747,7 +752,7 @@ def gen_serve_case(r: random.Random) -> dict:
         tags: set[str] = set()
         reason = r.choice(["validating", "mutating", "mutating"])
         ops_choice = r.choice([None, None, ["DELETE"], ["CREATE"], ["CREATE", "UPDATE"], ["CREATE", "DELETE"],
-                               ["UPDATE", "DELETE"], ["DELETE", "DELETE"], ["CONNECT"]])
+                               ["UPDATE", "DELETE"], ["DELETE", "DELETE"], ["CONNECT"], ["*"], ["*", "CREATE"], []])
         h: dict[str, Any] = {
             "id": f"h{i}", "reason": reason, "operations": ops_choice,
             "subresource": subresource if r.random() < 0.45 else r.choice([None, "status", "scale", "*", "*"]),
@@ -1077,7 +1082,7 @@ async def eval_serve(env: dict, case: dict) -> Result:
     # ---- handler selection: oracle + gate tie
     labels_now = body.get("metadata", {}).get("labels", {}) if isinstance(body.get("metadata", {}), dict) else {}
     cj_all = {"reason": case["reason"], "webhook": case["webhook"], "operation": op, "subresource": case["subresource"]}
-    # the managed configuration kopf would send to the apiserver for these handlers (C18-F3's guard):
+    # the managed configuration kopf would send to the apiserver for these handlers:
     # each handler's webhook carries its id in the URL and its declared operations in the rule
     hooks = adm.build_webhooks(registry._webhooks.get_all_handlers(), resources=[resource], name_suffix="sfx",
                                client_config={"url": "https://op.example/base/"})
@@ -1097,7 +1102,8 @@ async def eval_serve(env: dict, case: dict) -> Result:
         mut_del = h["reason"] == "mutating" and op == "DELETE"
         opted_strict = h["operations"] is not None and set(h["operations"]) == {"DELETE"}
         opted_lenient = h["operations"] is not None and "DELETE" in h["operations"]
-        op_ok = h["operations"] is None or op in h["operations"]
+        # (a review without an operation is malformed: nothing to match against; '*' admits everything)
+        op_ok = not h["operations"] or op is None or "*" in h["operations"] or op in h["operations"]
         if ran and not hint_ok:
             res.fail(f"handler {h['id']} ran against the webhook id/type hint", {"site": "WebhooksRegistry.iter_handlers", "shape": "ran despite webhook/reason hint"})
         if ran and not sub_ok:
@@ -1108,14 +1114,8 @@ async def eval_serve(env: dict, case: dict) -> Result:
         if ran and mut_del and not opted_lenient:
             res.fail(f"mutating handler {h['id']} ran on DELETE without opting in",
                      {"site": "WebhooksRegistry.iter_handlers", "shape": "mutating handler ran on DELETE without opt-in"})
-        if ran and hint_ok and sub_ok and m and not op_ok and not (mut_del and not opted_lenient):
-            if case["webhook"] is None:
-                # reachable with a manually written webhook configuration (no handler id in the URL)
-                res.fail(f"handler {h['id']} declared operations={h['operations']!r} but ran for operation {op!r}", SIG_OPS)
-            else:
-                # the review names this handler's own webhook but violates that webhook's rules: an apiserver
-                # honouring kopf's managed configuration never sends it (guard of gate_spec_partial)
-                res.tags.append("hinted-review-outside-the-webhook-rules")
+        if ran and not op_ok:
+            res.fail(f"handler {h['id']} declared operations={h['operations']!r} but ran for operation {op!r}", SIG_OPS)
         if not ran and hint_ok and sub_ok and m and op_ok and (not mut_del or opted_strict):
             res.fail(f"handler {h['id']} matches the request but did not run",
                      {"site": "WebhooksRegistry.iter_handlers", "shape": "matching handler did not run"})
